@@ -41,6 +41,7 @@ Same == UNCHANGED vars
 Tag(pl) == CASE pl.k = "prime" -> "prime"
              [] pl.k = "resp" -> pl.s \o "." \o pl.o \o ".resp"
              [] pl.k = "bcast" -> pl.os \o "." \o pl.o \o ".b" \o ToString(pl.n)
+             [] pl.k = "cancel" -> pl.s \o "." \o pl.o \o ".c" \o ToString(pl.n)
              [] pl.k = "sreq" -> pl.s \o "." \o pl.o \o ".q" \o ToString(pl.n)
              [] OTHER -> pl.s \o "." \o pl.o \o ".n" \o ToString(pl.n)
 IdxTag(ev) == ToString(ev.idx) \o "|" \o Tag(ev.pl)
@@ -73,6 +74,7 @@ EnvStep(e) ==
     [] e.op = "sreq" -> HSreq(e.a1, e.a2, Armed(<<"A", e.a1, e.a2>>)) /\ armed' = armed \ {<<"A", e.a1, e.a2>>}
     [] e.op = "ret"  -> HRet(e.a1, e.a2, Armed(<<"A", e.a1, e.a2>>)) /\ armed' = armed \ {<<"A", e.a1, e.a2>>}
     [] e.op = "ans"  -> Ans(e.a1, e.a2) /\ armed' = armed
+    [] e.op = "abandon" -> HAbandon(e.a1, e.a2) /\ armed' = armed
     [] e.op = "sa"   -> Sa(e.a1, Armed(<<"A", e.a1, "sa">>)) /\ armed' = armed \ {<<"A", e.a1, "sa">>}
     [] e.op = "get"  -> Get(e.a1, e.a2, e.a3, e.ri, Armed(<<"F", e.a1>>) \/ (Armed(<<"W", e.a1>>) /\ WillWrite(e.a2, e.a3, e.ri)))
                         /\ armed' = armed \ {<<"F", e.a1>>, <<"W", e.a1>>}
